@@ -6,7 +6,7 @@ list with the stack vocabulary of `Spec/SeqSpec.lean` (top = end of the list). -
 -- container: stack
 namespace CC.Driver.StackD
 open CC CC.Driver
-open CC.Driver.ArrayD (parseF32 defaultFactor effFactor growF exGeF predEven fmtLast fmtBool fmtOut fmtOut2 NSLOT)
+open CC.Driver.ArrayD (parseF32 defaultFactor effFactor growF exGeF predEven fmtLast fmtBool fmtOut fmtOut2 NSLOT growCheck absurdBegin absurdEnd)
 
 structure Sess where
   slots  : List (Option Stack) := [none, none, none, none]
@@ -77,8 +77,8 @@ def step (s : Sess) (c : Cmd) : Sess × String × String :=
     (st, r, m, sst)
   match c.op with
   | "new" | "new_default" =>
-    let (cap, f) := confOf c (c.op == "new")
-    if f > 1024 ∨ (2 ^ 24 < cap ∧ cap * 8 ≤ 2 ^ 40) then ({ blind := true }, "S ?", "M ?") else
+    let (cap, _) := confOf c (c.op == "new")
+    if 2 ^ 24 < cap ∧ cap * 8 ≤ 2 ^ 40 then ({ blind := true }, "S ?", "M ?") else
     let (st, r, m, sst) := build (c.op == "new") m
     let s' : Sess := { slots := [r, none, none, none], sslots := [if sst = .ok then some [] else none, none, none, none], mem := m }
     fin s' (fmtStat sst) (fmtStat st)
@@ -155,9 +155,11 @@ def step (s : Sess) (c : Cmd) : Sess × String × String :=
     match c.op with
     | "drop" => fin { s.dropSlot k with mem := a.destroy s.mem } "st=-" "st=-"
     | "push" =>
-      let (st, a', m) := a.push x s.mem
-      let (sst, xs') := if refused then (Stat.errAlloc, xs) else Spec.Seq.push xs x
-      upd a' m xs' (fmtStat sst) (fmtStat st)
+      let gc := growCheck a.v
+      if gc = 2 then ({ s with blind := true }, "S ?", "M ?") else
+      let (st, a', m) := a.push x (absurdBegin gc c s.mem)
+      let (sst, xs') := if refused then (Stat.errAlloc, xs) else if st == .errMaxCapacity then (st, xs) else Spec.Seq.push xs x
+      upd a' (absurdEnd gc c m) xs' (fmtStat sst) (fmtStat st)
     | "pop" =>
       let (st, o, a', m) := a.pop s.mem
       let (sst, so, xs') := Spec.Seq.pop xs
